@@ -76,7 +76,7 @@ end
 /-- abstraction function: forget the tree shapes -/
 def absS (vt : VState (OTree K V)) : VState (SMap K V) :=
   { versions := mapVers contents vt.versions, working := contents vt.working,
-    lastSaved := contents vt.lastSaved, base := vt.base, ivPending := vt.ivPending }
+    lastSaved := contents vt.lastSaved, base := vt.base, ivOpt := vt.ivOpt, ivSet := vt.ivSet }
 
 structure Inv (vt : VState (OTree K V)) : Prop where
   gw : GoodO vt.working
@@ -94,24 +94,29 @@ theorem goodO_find {vs : List (Nat × OTree K V)} (h : ∀ p ∈ vs, GoodO p.2) 
 
 theorem workingVersion_abs (vt : VState (OTree K V)) : (absS vt).workingVersion = vt.workingVersion := rfl
 
+theorem firstVer_map {C D : Type} (f : C → D) (vs : List (Nat × C)) : firstVer (mapVers f vs) = firstVer vs := by
+  cases vs <;> simp [firstVer, mapVers]
+
 theorem load_abs (vt : VState (OTree K V)) (target : Nat) :
-    (absS vt).load [] target = (vt.load none target).map (fun p => (absS p.1, p.2)) := by
+    (absS vt).load target = (vt.load target).map (fun p => (absS p.1, p.2)) := by
   unfold VState.load absS
   cases hvs : vt.versions with
   | nil => simp only [mapVers, List.map_nil]; split <;> simp [mapVers, hvs]
   | cons a as =>
     have hne : mapVers contents (a :: as) = (a.1, contents a.2) :: mapVers contents as := rfl
     simp only [hne]
-    rw [← hne, latestVer_map]
+    rw [← hne, latestVer_map, firstVer_map]
     split
     · rfl
-    · rw [findVer_map]
-      cases findVer (a :: as) (if target = 0 then latestVer (a :: as) else target) with
-      | none => rfl
-      | some c => simp [mapVers]
+    · split
+      · rfl
+      · rw [findVer_map]
+        cases findVer (a :: as) (if target = 0 then latestVer (a :: as) else target) with
+        | none => rfl
+        | some c => simp [mapVers]
 
 theorem load_inv (vt : VState (OTree K V)) (h : Inv vt) (target : Nat) (vt' : VState (OTree K V)) (n : Nat)
-    (hl : vt.load none target = some (vt', n)) : Inv vt' := by
+    (hl : vt.load target = some (vt', n)) : Inv vt' := by
   unfold VState.load at hl
   cases hvs : vt.versions with
   | nil =>
@@ -123,12 +128,14 @@ theorem load_inv (vt : VState (OTree K V)) (h : Inv vt) (target : Nat) (vt' : VS
     rw [hvs] at hl; simp only at hl
     split at hl
     · cases hl
-    · cases hf : findVer (a :: as) (if target = 0 then latestVer (a :: as) else target) with
-      | none => rw [hf] at hl; cases hl
-      | some c =>
-        rw [hf] at hl
-        simp only [Option.some.injEq, Prod.mk.injEq] at hl
-        have hg : GoodO c := goodO_find (by rw [← hvs]; exact h.gv) hf
-        rw [← hl.1]
-        exact ⟨hg, hg, by rw [← hvs]; exact h.gv⟩
+    · split at hl
+      · cases hl
+      · cases hf : findVer (a :: as) (if target = 0 then latestVer (a :: as) else target) with
+        | none => rw [hf] at hl; cases hl
+        | some c =>
+          rw [hf] at hl
+          simp only [Option.some.injEq, Prod.mk.injEq] at hl
+          have hg : GoodO c := goodO_find (by rw [← hvs]; exact h.gv) hf
+          rw [← hl.1]
+          exact ⟨hg, hg, by rw [← hvs]; exact h.gv⟩
 end Iavl
